@@ -47,6 +47,7 @@ type xl struct {
 	transl  map[string]bool // package paths whose functions are translated (Gen.<name>.)
 	out     strings.Builder
 	recvPtr string // name of pointer receiver being threaded, or ""
+	scope   map[string]bool // names declared so far in the function being translated (params, receiver, := / var)
 }
 
 type bail struct{ msg string }
@@ -301,6 +302,13 @@ func (x *xl) expr(e ast.Expr) string {
 		a, b := x.expr(e.X), x.expr(e.Y)
 		switch e.Op {
 		case token.ADD, token.SUB, token.MUL, token.QUO:
+			if e.Op == token.QUO {
+				if tv, ok := x.info().Types[e]; ok {
+					if bt, ok := tv.Type.Underlying().(*types.Basic); ok && bt.Info()&types.IsInteger != 0 {
+						x.fail(e, "integer division (Go truncates, Lean's Int./ does not)")
+					}
+				}
+			}
 			return "(" + a + " " + e.Op.String() + " " + b + ")"
 		case token.LSS:
 			return "(decide (" + a + " < " + b + "))"
@@ -500,7 +508,15 @@ func (x *xl) funcLit(f *ast.FuncLit) string {
 	}
 	saved := x.recvPtr
 	x.recvPtr = ""
+	savedScope := copyset(x.scope)
+	for i := 0; i < sig.Params().Len(); i++ {
+		if x.scope[sig.Params().At(i).Name()] {
+			x.fail(f, "closure parameter %q shadows an outer variable", sig.Params().At(i).Name())
+		}
+		x.scope[sig.Params().At(i).Name()] = true
+	}
 	body := x.block(f.Body.List, "")
+	x.scope = savedScope
 	x.recvPtr = saved
 	return "(fun " + strings.Join(ps, " ") + " =>\n" + body + ")"
 }
@@ -544,6 +560,44 @@ func (x *xl) assigned(stmts []ast.Stmt, declared map[string]bool, acc map[string
 			x.assigned(s.Body.List, d2, acc)
 		case *ast.ReturnStmt:
 			x.fail(s, "return inside a non-terminating branch")
+		}
+	}
+}
+
+// noShadow fails when a statement list of a branch / loop body declares (:= or var) a name that is
+// already declared in the enclosing function: the let-chain translation would let the inner binding
+// escape into the tuple the branch yields.
+func (x *xl) noShadow(stmts []ast.Stmt) {
+	for _, s := range stmts {
+		switch s := s.(type) {
+		case *ast.AssignStmt:
+			if s.Tok == token.DEFINE {
+				for _, l := range s.Lhs {
+					if id, ok := l.(*ast.Ident); ok && id.Name != "_" && x.scope[id.Name] {
+						x.fail(s, "declaration of %q inside a branch shadows an outer variable", id.Name)
+					}
+				}
+			}
+		case *ast.DeclStmt:
+			if gd, ok := s.Decl.(*ast.GenDecl); ok && gd.Tok == token.VAR {
+				for _, sp := range gd.Specs {
+					for _, n := range sp.(*ast.ValueSpec).Names {
+						if x.scope[n.Name] {
+							x.fail(s, "declaration of %q inside a branch shadows an outer variable", n.Name)
+						}
+					}
+				}
+			}
+		case *ast.IfStmt:
+			x.noShadow(s.Body.List)
+			switch e := s.Else.(type) {
+			case *ast.BlockStmt:
+				x.noShadow(e.List)
+			case *ast.IfStmt:
+				x.noShadow([]ast.Stmt{e})
+			}
+		case *ast.RangeStmt:
+			x.noShadow(s.Body.List)
 		}
 	}
 }
@@ -677,6 +731,7 @@ func (x *xl) block(stmts []ast.Stmt, tail string) string {
 				} else {
 					v = x.zero(x.info().Defs[n].Type(), s)
 				}
+				x.scope[n.Name] = true
 				fmt.Fprintf(&sb, "let %s := %s\n", leanIdent(n.Name), v)
 			}
 		}
@@ -727,6 +782,13 @@ func (x *xl) block(stmts []ast.Stmt, tail string) string {
 		if s.Init != nil {
 			x.fail(s, "if with init")
 		}
+		x.noShadow(s.Body.List)
+		switch e := s.Else.(type) {
+		case *ast.BlockStmt:
+			x.noShadow(e.List)
+		case *ast.IfStmt:
+			x.noShadow([]ast.Stmt{e})
+		}
 		cond := x.expr(s.Cond)
 		var els []ast.Stmt
 		switch e := s.Else.(type) {
@@ -763,6 +825,10 @@ func (x *xl) block(stmts []ast.Stmt, tail string) string {
 		if !ok {
 			x.fail(s, "range value")
 		}
+		x.noShadow(s.Body.List)
+		if x.scope[v.Name] {
+			x.fail(s, "range variable %q shadows an outer variable", v.Name)
+		}
 		acc := map[string]bool{}
 		x.assigned(s.Body.List, map[string]bool{v.Name: true}, acc)
 		vars := sortedKeys(acc)
@@ -795,6 +861,7 @@ func (x *xl) assign(lhs ast.Expr, rhs string, n ast.Node) string {
 		if l.Name == "_" {
 			return ""
 		}
+		x.scope[l.Name] = true
 		return fmt.Sprintf("let %s := %s\n", leanIdent(l.Name), rhs)
 	case *ast.SelectorExpr:
 		// v.f = rhs   (possibly nested: v.f.g)
@@ -865,6 +932,13 @@ func (x *xl) funcDecl(pkg *packages.Package, name string) {
 	sig := pkg.TypesInfo.Defs[fd.Name].Type().(*types.Signature)
 	var params []string
 	x.recvPtr = ""
+	x.scope = map[string]bool{}
+	if sig.Recv() != nil && sig.Recv().Name() != "" {
+		x.scope[sig.Recv().Name()] = true
+	}
+	for i := 0; i < sig.Params().Len(); i++ {
+		x.scope[sig.Params().At(i).Name()] = true
+	}
 	if sig.Recv() != nil {
 		rn := sig.Recv().Name()
 		if rn == "" || rn == "_" {
